@@ -66,6 +66,9 @@ pub enum Ctor {
     Plain,
     /// single-part constructor `new` when the model has exactly one part, `From<Vec<_>>` for multipoints
     Single,
+    /// polygons: the matching polyline is built (`with_parts`) and converted with `From<Polyline*>` when every ring
+    /// has the two points a polyline part needs; everything else as `Plain`
+    Converted,
 }
 
 pub trait Kind: Sized + Clone + EsriShape + ReadableShape + Into<Shape> + TryFrom<Shape> + 'static {
@@ -109,7 +112,7 @@ macro_rules! multipoint_kind {
             fn build(g: &Geom, c: Ctor) -> Self {
                 let p: Vec<$P> = pts(&g.parts[0].pts);
                 match c {
-                    Ctor::Plain => $T::new(p),
+                    Ctor::Plain | Ctor::Converted => $T::new(p),
                     Ctor::Single => $T::from(p),
                 }
             }
@@ -188,11 +191,13 @@ pub fn part_of_ring<P: Pt>(r: &PolygonRing<P>) -> Part {
 }
 
 macro_rules! polygon_kind {
-    ($T:ident, $P:ident, $ty:expr) => {
+    ($T:ident, $P:ident, $L:ident, $ty:expr) => {
         impl Kind for $T {
             const TY: Ty = $ty;
             fn build(g: &Geom, c: Ctor) -> Self {
-                if c == Ctor::Single && g.parts.len() == 1 {
+                if c == Ctor::Converted && g.parts.iter().all(|p| p.pts.len() >= 2) {
+                    $T::from($L::with_parts(g.parts.iter().map(|p| pts::<$P>(&p.pts)).collect()))
+                } else if c == Ctor::Single && g.parts.len() == 1 {
                     $T::new(ring_of::<$P>(&g.parts[0]))
                 } else {
                     $T::with_rings(g.parts.iter().map(ring_of::<$P>).collect())
@@ -210,9 +215,9 @@ macro_rules! polygon_kind {
         }
     };
 }
-polygon_kind!(Polygon, Point, Ty::Polygon);
-polygon_kind!(PolygonM, PointM, Ty::PolygonM);
-polygon_kind!(PolygonZ, PointZ, Ty::PolygonZ);
+polygon_kind!(Polygon, Point, Polyline, Ty::Polygon);
+polygon_kind!(PolygonM, PointM, PolylineM, Ty::PolygonM);
+polygon_kind!(PolygonZ, PointZ, PolylineZ, Ty::PolygonZ);
 
 pub fn patch_of(p: &Part) -> Patch {
     let v: Vec<PointZ> = pts(&p.pts);
@@ -258,6 +263,41 @@ impl Kind for Multipatch {
             m_present: true,
         }
         .canon()
+    }
+}
+
+/// A value of type K holding exactly the model's parts even where no public constructor would build it (no part at
+/// all, empty parts, one-point polyline parts): the record is laid out by the reference encoder and read with the
+/// library's own reader, which is how such values reach user code.
+pub fn build_via_read<K: Kind>(g: &Geom) -> Result<K, String> {
+    let mut g = g.clone().canon_file();
+    g.ty = K::TY;
+    let enc = crate::refcodec::encode(&crate::refcodec::FileModel::simple(K::TY, vec![g]));
+    let mut r = shapefile::ShapeReader::new(std::io::Cursor::new(enc.shp)).map_err(|e| format!("{:?}", e))?;
+    let mut v = r.read().map_err(|e| format!("{:?}", e))?;
+    if v.len() != 1 {
+        return Err(format!("{} shapes read from a one-record file", v.len()));
+    }
+    K::try_from(v.remove(0)).map_err(|_| "the record read is not of the type written".to_string())
+}
+
+/// The model of a shape of type `ty` without any vertex (multi-vertex types only).
+pub fn empty_geom(ty: Ty) -> Geom {
+    Geom {
+        ty,
+        parts: if ty.family() == Family::Multipoint { vec![Part { kind: 0, pts: vec![] }] } else { vec![] },
+        bbox: [F(0); 8],
+        m_present: ty.carries_m(),
+    }
+    .canon_file()
+}
+
+/// `K::build` for models a constructor accepts, `build_via_read` for vertex-less ones.
+pub fn build_any<K: Kind>(g: &Geom, c: Ctor) -> K {
+    if K::TY.family() != Family::Point && g.npoints() == 0 {
+        build_via_read::<K>(g).expect("the library reads a record without vertices")
+    } else {
+        K::build(g, c)
     }
 }
 
